@@ -164,7 +164,7 @@ def cases(ctx):
     for k in range(ctx.share(400)):
         lat = cprgen.rand_sphere_lat(rng)
         yield "same_parity", mkcase(rng, lat, rng.uniform(-180, 180))
-    n = ctx.share(600000 if quick else 3000000)
+    n = ctx.share(600000 if quick else 12000000)
     dl = cprgen.directed_lats(rng, n // 2 + 1)
     for k in range(n):
         if k % 2 == 0:
